@@ -517,9 +517,15 @@ type fedTransport struct {
 	cur func() *fedSession
 }
 
+// a session can also travel with the request context (concurrent requests on one engine)
+type fedSessKey struct{}
+
 func (t *fedTransport) RoundTrip(req *http.Request) (*http.Response, error) {
 	body, _ := io.ReadAll(req.Body)
 	sess := t.cur()
+	if s, ok := req.Context().Value(fedSessKey{}).(*fedSession); ok && s != nil {
+		sess = s
+	}
 	if sess == nil {
 		return nil, fmt.Errorf("no session")
 	}
@@ -727,6 +733,30 @@ func (e *fedEngine) run(sess *fedSession, query, opName string, vars []byte, opt
 	out.Probs = append([]string{}, sess.problems...)
 	sess.mu.Unlock()
 	sort.Slice(out.Log, func(i, j int) bool { return out.Log[i].Seq < out.Log[j].Seq })
+	return out
+}
+
+// runCtx executes one operation with the session attached to the request context: several may run at once
+func (e *fedEngine) runCtx(sess *fedSession, query, opName string, vars []byte, options ...engine.ExecutionOptions) *fedResponse {
+	req := graphql.Request{Query: query, OperationName: opName}
+	if len(vars) > 0 {
+		req.Variables = vars
+	}
+	w := graphql.NewEngineResultWriter()
+	err := e.eng.Execute(context.WithValue(context.Background(), fedSessKey{}, sess), &req, &w, options...)
+	out := &fedResponse{Raw: w.String(), Err: err}
+	var parsed struct {
+		Data   any   `json:"data"`
+		Errors []any `json:"errors"`
+	}
+	dec := json.NewDecoder(strings.NewReader(out.Raw))
+	dec.UseNumber()
+	_ = dec.Decode(&parsed)
+	out.Data, out.Errors = parsed.Data, parsed.Errors
+	sess.mu.Lock()
+	out.Log = append([]fedExchange{}, sess.log...)
+	out.Probs = append([]string{}, sess.problems...)
+	sess.mu.Unlock()
 	return out
 }
 
